@@ -18,10 +18,13 @@ QN(n, d) ==
 QI(n)      == <<n, 1>>
 Q0         == <<0, 1>>
 Q1         == <<1, 1>>
-QAdd(a, b) == IF a[2] = b[2] THEN QN(a[1] + b[1], a[2]) ELSE QN(a[1] * b[2] + b[1] * a[2], a[2] * b[2])
+QAdd(a, b) == IF a[2] = b[2] THEN QN(a[1] + b[1], a[2])
+              ELSE LET g == GCD(a[2], b[2]) IN QN(a[1] * (b[2] \div g) + b[1] * (a[2] \div g), (a[2] \div g) * b[2])
 QNeg(a)    == <<0 - a[1], a[2]>>
 QSub(a, b) == QAdd(a, QNeg(b))
-QMul(a, b) == IF a[1] = 0 \/ b[1] = 0 THEN Q0 ELSE QN(a[1] * b[1], a[2] * b[2])
+QMul(a, b) == IF a[1] = 0 \/ b[1] = 0 THEN Q0
+              ELSE LET g1 == GCD(QAbs(a[1]), b[2])  g2 == GCD(QAbs(b[1]), a[2])      \* cross-cancel first (32-bit integers)
+                   IN QN((a[1] \div g1) * (b[1] \div g2), (a[2] \div g2) * (b[2] \div g1))
 QInv(a)    == IF a[1] < 0 THEN <<0 - a[2], 0 - a[1]>> ELSE <<a[2], a[1]>>      \* a # 0
 QDiv(a, b) == QMul(a, QInv(b))
 QLess(a, b) == a[1] * b[2] < b[1] * a[2]
